@@ -1027,6 +1027,17 @@ package dig
 //@   let prefixes = forall g *graphHolder, j int :: existed(g) && 0 <= j && j < old(len(g.nodes)) && j < len(g.nodes) ==> g.nodes[j] == old(g.nodes[j])
 //@   let othersKept = forall x *Scope, k key :: existed(x) && x != tgt ==> x.providers[k] == old(x.providers[k])
 //@   let registered = (forall k key :: k in oldProviders ==> oldProviders[k] == old(tgt.providers[k])) && (forall k key :: !(k in oldProviders) ==> tgt.providers[k] == old(tgt.providers[k]))
+//@   let node = ret(newConstructorNode_1, 0)
+//@   ensures[C08:accepted-node-joins-the-target-scope,C06:accepted-node-joins-the-target-scope] err == nil ==> len(tgt.nodes) == old(len(tgt.nodes)) + 1 && tgt.nodes[len(tgt.nodes) - 1] == node
+//@        && node.s == tgt && node.origS == s0 && !node.called
+//@   ensures[C08:accepted-provide-touches-no-other-node-list] forall x *Scope :: existed(x) && x != tgt ==> x.nodes == old(x.nodes)
+//@   ensures[C08:accepted-provide-touches-no-other-registry,C09:accepted-provide-touches-no-other-registry] forall x *Scope, k key :: existed(x) && x != tgt ==> x.providers[k] == old(x.providers[k])
+//@   ensures[C05:accepted-provide-leaves-every-listed-graph-verified-or-deferred,C16:accepted-provide-leaves-every-listed-graph-verified-or-deferred] err == nil ==> (forall k int :: 0 <= k && k < len(all) ==>
+//@        all[k].isVerifiedAcyclic == !all[k].deferAcyclicVerification)
+//@   ensures[C13:cycle-rejection-is-classified,C05:cycle-rejection-is-classified] reached(cycleDetectedError_1) ==> err != nil && chainHasCycle(err)
+//@   ensures[C18:accepted-provide-fills-the-info] err == nil && opts.Info != nil ==> reached(DotParam_1) && reached(DotResult_1) && opts.Info.ID == node.id && len(opts.Info.Inputs) == len(ret(DotParam_1, 0)) && len(opts.Info.Outputs) == len(ret(DotResult_1, 0))
+//@   loop range allScopes #2: invariant[C05:graphs-checked-so-far] forall k int :: 0 <= k && k < $i ==> all[k].isVerifiedAcyclic == !all[k].deferAcyclicVerification
+//@   loop range allScopes #2: invariant[C06:node-lists-untouched-by-the-cycle-check] forall x *Scope :: existed(x) ==> x.nodes == old(x.nodes)
 //@   loop range allScopes #1: invariant[C06:snapshots-taken-so-far] forall k int :: 0 <= k && k < $i ==> all[k].gh.snap == len(all[k].gh.nodes) && all[k].gh.snap >= 0
 //@   loop range allScopes #1: invariant[C06:nothing-else-touched-while-snapshotting] kept(graphHolder.nodes, map(Scope.providers), Scope.nodes) && allScopes == all && treeInv() && tgt != nil
 //@        && (forall k int :: 0 <= k && k < len(all) ==> all[k] != nil && allocated(all[k]))
